@@ -1,32 +1,35 @@
 #!/bin/sh
 # usage: tools/seedcheck.sh C06 [props-to-run...]   -- confirm an independently seeded break and run checks against it
-# The break lives in the scratch worktree /tmp/seed/<ID> (patch applied, _seed/{patch.diff,demo.py,meta.json}).
+# SEED_ROOT (default /tmp/seed) and SEED_SUFFIX (e.g. -2 for a second round) select the campaign.
+# The break lives in the scratch worktree $SEED_ROOT/<ID> (patch applied, _seed/{patch.diff,demo.py,meta.json}).
 id="$1"; shift
-wt=/tmp/seed/$id
+root=${SEED_ROOT:-/tmp/seed}
+sfx=${SEED_SUFFIX:-}
+wt=$root/$id
 props="${*:-$id}"
-out=/verif/seeded/$id
+out=/verif/seeded/$id$sfx
 mkdir -p "$out"
 cd "$wt" || exit 2
-git diff -- btclib > /tmp/seed/$id.current.diff
+git diff -- btclib > $root/$id.current.diff
 echo "== demo with the change"
-/venv/bin/python _seed/demo.py > /tmp/seed/$id.demo_with.log 2>&1; with=$?
-git apply -R /tmp/seed/$id.current.diff || { echo "cannot revert"; exit 2; }
+/venv/bin/python _seed/demo.py > $root/$id.demo_with.log 2>&1; with=$?
+git apply -R $root/$id.current.diff || { echo "cannot revert"; exit 2; }
 echo "== demo without the change"
-/venv/bin/python _seed/demo.py > /tmp/seed/$id.demo_without.log 2>&1; without=$?
-git apply /tmp/seed/$id.current.diff || { echo "cannot re-apply"; exit 2; }
+/venv/bin/python _seed/demo.py > $root/$id.demo_without.log 2>&1; without=$?
+git apply $root/$id.current.diff || { echo "cannot re-apply"; exit 2; }
 echo "demo exit with=$with without=$without"
 echo "== repository test suite with the change"
-/venv/bin/python -m pytest -q -p no:cacheprovider --continue-on-collection-errors -n ${SEED_JOBS:-8} tests 2>&1 | tail -1 > /tmp/seed/$id.tests.log
-cat /tmp/seed/$id.tests.log
+/venv/bin/python -m pytest -q -p no:cacheprovider --continue-on-collection-errors -n ${SEED_JOBS:-8} tests 2>&1 | tail -1 > $root/$id.tests.log
+cat $root/$id.tests.log
 cd /verif
 res=""
 for p in $props; do
   echo "== ./check $p against the change"
-  VERIF_REPO=$wt VERIF_JOBS=${CHECK_JOBS:-12} ./check $p --tier quick --no-evidence > /tmp/seed/$id.check_$p.log 2>&1; rc=$?
-  grep -m2 "mechanism=" /tmp/seed/$id.check_$p.log | cut -c1-300
-  tail -1 /tmp/seed/$id.check_$p.log
+  VERIF_REPO=$wt VERIF_JOBS=${CHECK_JOBS:-12} ./check $p --tier quick --no-evidence > $root/$id.check_$p.log 2>&1; rc=$?
+  grep -m2 "mechanism=" $root/$id.check_$p.log | cut -c1-300
+  tail -1 $root/$id.check_$p.log
   res="$res $p:rc=$rc"
 done
 cp "$wt/_seed/patch.diff" "$wt/_seed/demo.py" "$out/" 2>/dev/null
 cp "$wt/_seed/meta.json" "$out/agent_meta.json" 2>/dev/null
-echo "RESULT $id demo_with=$with demo_without=$without tests=$(cat /tmp/seed/$id.tests.log) checks:$res"
+echo "RESULT $id demo_with=$with demo_without=$without tests=$(cat $root/$id.tests.log) checks:$res"
